@@ -1,13 +1,16 @@
 """C10 — rounded operations never return more bits than the working precision."""
-from props import _core
+from props import _core, _api
 
 LEVEL = "proof"
 LEAN_MODULES = ["Props.C10"]
 OPS = ["normalize", "normalize1", "from_man_exp", "from_int", "pos", "neg", "abs", "add", "sub", "mul", "gmul", "div",
        "mul_int", "gmul_int", "rdiv_int", "from_rational", "sqrt", "mod", "pow_int", "perturb", "floor", "ceil", "nint",
        "frac", "hypot", "sum"]
-ASSUMPTIONS = ["theorems cover the modelled libmpf core; the wrapper layer is monitored by the sweep, not proved"]
+ASSUMPTIONS = ["theorems cover the modelled libmpf core; the wrapper layer is monitored by the sweep, not proved",
+               "documented-exact operations are whitelisted from the property text only: ldexp, frexp, mpmathify/convert, "
+               "exact f* operations, component access (re, im, .real, .imag, interval .a/.b)"]
 
 
 def run(ctx):
-    return _core.run_core(ctx, OPS, 120000, 3000000, monitors=("bits",))
+    res = _core.run_core(ctx, OPS, 120000, 3000000, monitors=("bits",))
+    return _api.add_sweep(ctx, res, "C10")
